@@ -83,7 +83,7 @@ Definition lden (unroll : bool) (sc : schema) : lty -> sty -> Prop :=
   fix ld (l : lty) (t : sty) {struct l} : Prop :=
   match l with
   | LLeaf t0 len => t = t0 /\ is_StructType t = false /\ andb (is_ArrayType t) unroll = false /\ type_length (enums sc) t = Some len
-  | LBad => True                                       (* emission fails there: nothing to say *)
+  | LBad => is_StructType t = false /\ andb (is_ArrayType t) unroll = false /\ type_length (enums sc) t = None
   | LArr e n => unroll = true /\ exists t', t = SArr t' n /\ ld e t'
   | LStruct fs =>
       exists s str, t = SStructRef s /\ find (fun s0 => String.eqb (sname s0) s) (structs sc) = Some str /\
@@ -237,7 +237,7 @@ Section LResolve.
 
   Lemma leaf_of_lden t : is_StructType t = false -> andb (is_ArrayType t) unroll = false -> lden unroll sc (leaf_of (enums sc) t) t.
   Proof.
-    intros Hs Ha. unfold leaf_of. destruct (type_length (enums sc) t) as [len|] eqn:E; cbn [lden]; [|exact I]. repeat split; assumption.
+    intros Hs Ha. unfold leaf_of. destruct (type_length (enums sc) t) as [len|] eqn:E; cbn [lden]; repeat split; assumption.
   Qed.
 
   Lemma lresolve_ty_lden en : lenv_ok en -> forall t l, lresolve_ty unroll en (enums sc) t = Some l -> lden unroll sc l t.
